@@ -29,6 +29,18 @@ func (a addrSpec) request() *http.Request {
 	return req
 }
 
+// xffsHex: every X-Forwarded-For line of the request, in order, for the model (which picks as Header.Get does).
+func (a addrSpec) xffsHex() string {
+	if len(a.xff) == 0 {
+		return "_"
+	}
+	var hs []string
+	for _, l := range a.xff {
+		hs = append(hs, hx([]byte(l)))
+	}
+	return strings.Join(hs, ",")
+}
+
 func (a addrSpec) firstXFF() string {
 	if len(a.xff) == 0 {
 		return ""
@@ -107,7 +119,7 @@ func runC04(r *Run) {
 	for i := 0; i < n1; i++ {
 		a := genAddr(rng)
 		specs = append(specs, a)
-		lines = append(lines, fmt.Sprintf("clientaddr xff=%s peer=%s", hx([]byte(a.firstXFF())), hx([]byte(a.peer))))
+		lines = append(lines, fmt.Sprintf("clientaddr xffs=%s peer=%s", a.xffsHex(), hx([]byte(a.peer))))
 	}
 	ans := r.Oracle(lines)
 	drift := 0
@@ -203,8 +215,8 @@ func runC04(r *Run) {
 	}
 	var plines []string
 	for _, p := range pairs {
-		plines = append(plines, fmt.Sprintf("clientaddr xff=%s peer=%s", hx([]byte(p.a.firstXFF())), hx([]byte(p.a.peer))))
-		plines = append(plines, fmt.Sprintf("clientaddr xff=%s peer=%s", hx([]byte(p.b.firstXFF())), hx([]byte(p.b.peer))))
+		plines = append(plines, fmt.Sprintf("clientaddr xffs=%s peer=%s", p.a.xffsHex(), hx([]byte(p.a.peer))))
+		plines = append(plines, fmt.Sprintf("clientaddr xffs=%s peer=%s", p.b.xffsHex(), hx([]byte(p.b.peer))))
 	}
 	pans := r.Oracle(plines)
 	for pi, p := range pairs {
